@@ -2,7 +2,7 @@ From Coq Require Import Lia.
 (* C09 — stream discipline: position independence. *)
 From VF Require Import Model.Compiler.
 From VF Require Import Model.Reader Model.Writer Proofs.ReaderProps Proofs.ShiftProps Proofs.UnionExt Gen.GeneratedOk.
-From VF Require Proofs.CompilerProps Proofs.CompiledRoundTrip Proofs.CompilerGaps Proofs.CompilerStatic Proofs.CompiledAligned.
+From VF Require Proofs.CompilerProps Proofs.CompiledRoundTrip Proofs.CompilerGaps Proofs.CompilerStatic Proofs.CompilerAligned Proofs.CompiledAligned.
 Open Scope string_scope. Open Scope list_scope. Open Scope Z_scope.
 
 (* For every type (structures, unions, all four array forms, bit fields, pointers; aligned structures when the start offset is a multiple of
@@ -46,6 +46,13 @@ Theorem compiled_aligned_reader_position_independent : forall pre c fuel nm fs p
   forall s pos, 0 <= pos -> CompilerProps.req (read_compiled c fuel true fs (pre ++ s) (zlen pre + pos)) (shift (zlen pre) (read_compiled c fuel true fs s pos)).
 Proof. exact CompiledAligned.compiled_aligned_position_independent. Qed.
 
+(* ... and the generated reader of an ALIGNED structure with dynamically sized members *)
+Theorem compiled_aligned_dynamic_reader_position_independent : forall pre c fuel nm fs p,
+  Forall (CompilerAligned.adcls c fuel) fs -> NoDup (map f_name fs) -> CompiledAligned.layout_fits c fs -> compile_plan c true fs = Ok p -> shift_ok pre c (TStruct nm fs true) = true ->
+  forall s pos, 0 <= pos -> CompilerProps.req (read_compiled c fuel true fs (pre ++ s) (zlen pre + pos)) (shift (zlen pre) (read_compiled c fuel true fs s pos)).
+Proof. exact CompiledAligned.compiled_aligned_dynamic_position_independent. Qed.
+
+Print Assumptions compiled_aligned_dynamic_reader_position_independent.
 Print Assumptions bytes_after_irrelevant_with_dynamic_unions.
 Print Assumptions compiled_aligned_reader_position_independent.
 Print Assumptions compiled_reader_position_independent.
